@@ -55,7 +55,7 @@ func TestC15Race(t *testing.T) {
 		if err := n.Initialize(); err != nil {
 			t.Fatalf("BROKEN: %v", err)
 		}
-		var readersActive, apiActive, overlap int32
+		var readersActive, apiActive, overlap, routed int32
 		// consumer + router
 		var chMu sync.Mutex
 		var chans []*gomavlib.Channel
@@ -77,11 +77,23 @@ func TestC15Race(t *testing.T) {
 						atomic.StoreInt32(&overlap, 1)
 					}
 					// route: edit, fix, forward to everybody else
-					if m, ok := e.Message().(*common.MessageDebug); ok {
+					if m, ok := e.Message().(*common.MessageDebug); ok && atomic.AddInt32(&routed, 1)%2 == 0 {
 						m.Value += 1
 						if err := n.FixFrame(e.Frame); err == nil {
 							n.WriteFrameExcept(e.Channel, e.Frame) //nolint:errcheck
 						}
+					} else if ok {
+						// route the decoded frame to each other channel individually, then look at it again
+						chMu.Lock()
+						targets := append([]*gomavlib.Channel(nil), chans...)
+						chMu.Unlock()
+						for _, c := range targets {
+							if c != e.Channel {
+								n.WriteFrameTo(c, e.Frame) //nolint:errcheck
+							}
+						}
+						_ = e.Frame.GetMessage().GetID()
+						m.Value += 2
 					} else {
 						n.WriteFrameExcept(e.Channel, e.Frame) //nolint:errcheck
 					}
@@ -176,7 +188,9 @@ func TestC15Race(t *testing.T) {
 					case 3:
 						n.WriteFrameAll(fr) //nolint:errcheck
 					case 4:
-						n.WriteFrameTo(target, fr) //nolint:errcheck
+						n.WriteFrameTo(target, fr)  //nolint:errcheck
+						n.WriteFrameTo(target, fr)  //nolint:errcheck
+						_ = fr.GetMessage().GetID() // the application still owns its frame after the call
 					case 5:
 						n.WriteFrameExcept(target, fr) //nolint:errcheck
 					}
